@@ -397,8 +397,45 @@ class _Interp(object):
         self.eff.events.append(Event(self.key, self.m, self.f, node, kind, receiver, detail, self.chain, value, attr))
 
     # -- statements -------------------------------------------------------------------------------
+    def _scan_host_fed(self):
+        """Local names of this function that an *escaping* nested function fills from its own parameters (the setter closure handed
+        to listeners: ``result['value'] = new_value`` / ``nonlocal value; value = new_value``): what they hold is host-supplied,
+        whichever statement of the outer function reads it."""
+        self._fed_containers, self._fed_scalars = set(), set()
+        if isinstance(self.f, ast.Lambda):
+            return
+        nested = [n for n in ast.walk(self.f) if isinstance(n, (ast.FunctionDef, ast.AsyncFunctionDef)) and n is not self.f]
+        for g in nested:
+            callees = set(id(c.func) for c in ast.walk(self.f) if isinstance(c, ast.Call))
+            escapes = any(isinstance(x, ast.Name) and x.id == g.name and isinstance(x.ctx, ast.Load) and id(x) not in callees
+                          for x in ast.walk(self.f))
+            if not escapes:
+                continue
+            ps = set(a.arg for a in g.args.posonlyargs + g.args.args + g.args.kwonlyargs)
+            if g.args.vararg:
+                ps.add(g.args.vararg.arg)
+            local = set(ps)
+            nonlocals = set()
+            for x in ast.walk(g):
+                if isinstance(x, ast.Nonlocal):
+                    nonlocals.update(x.names)
+            for x in ast.walk(g):
+                if isinstance(x, ast.Assign):
+                    for t in x.targets:
+                        if isinstance(t, ast.Name) and t.id not in nonlocals:
+                            local.add(t.id)
+            for x in ast.walk(g):
+                if not isinstance(x, ast.Assign) or not any(isinstance(y, ast.Name) and y.id in ps for y in ast.walk(x.value)):
+                    continue
+                for t in x.targets:
+                    if isinstance(t, (ast.Subscript, ast.Attribute)) and isinstance(t.value, ast.Name) and t.value.id not in local:
+                        self._fed_containers.add(t.value.id)
+                    if isinstance(t, ast.Name) and t.id in nonlocals:
+                        self._fed_scalars.add(t.id)
+
     def run(self):
         body = self.f.body if not isinstance(self.f, ast.Lambda) else [ast.Return(value=self.f.body)]
+        self._scan_host_fed()
         self.block(body, self.env)
         # nested functions may escape (callbacks handed to listeners): analyse them with host arguments
         for name, node in sorted(getattr(self, '_nested', {}).items()):
@@ -662,7 +699,12 @@ class _Interp(object):
     # -- names ----------------------------------------------------------------------------------------
     def lookup(self, name, env):
         if name in env:
-            return env[name]
+            v = env[name]
+            if name in getattr(self, '_fed_containers', ()):
+                return Own(v.roots, join(v.element(), HOST))
+            if name in getattr(self, '_fed_scalars', ()):
+                return join(v, HOST)
+            return v
         if self.closure_env is not None and name in self.closure_env:
             return self.closure_env[name]
         return self.module_name(self.m, name)
